@@ -3,7 +3,7 @@
    the index is in (1, 4) inside the transmission window, so the waist position -L / (2 n_z) is a genuine quotient. *)
 From Coq Require Import Reals Lra String List Bool.
 From SpdVerif Require Import Base.Rx Base.Vec3 Base.CfgNumOps Model.NumInst Spec.ConfigSpec Model.ConfigTypes Model.Config Model.Cfg_Composed
-  Proofs.C17_current Proofs.C20_idempotent Proofs.Cfg_composed.
+  Proofs.C20_idempotent Proofs.Cfg_composed.
 From SpdVerif Require Spec.CrystalTypes Gen.Crystals Model.Optics Model.Fresnel Proofs.Sellmeier Proofs.Compose_index.
 Local Open Scope R_scope.
 
@@ -26,12 +26,13 @@ Proof.
 Qed.
 
 (* the composition theorems at the built-in index *)
-Theorem no_panic_builtin snell_inv sd_t sd_p U minpos c :
-  (forall b e cs, snell_inv b e cs <> None) ->
-  (ConfigSites.cfg_checks_total_reflection = false -> no_total_internal_reflection builtin_index_of snell_inv sd_t sd_p c) ->
-  angle_search_defined builtin_index_of snell_inv sd_t sd_p c ->
-  (ConfigSites.searches_cannot_fail = false -> period_search_defined_at builtin_index_of snell_inv sd_t sd_p c) ->
-  is_panic (try_as_spdc_now R_ops U (oracles_of_model builtin_index_of snell_inv sd_t sd_p) minpos c) = false.
+Theorem no_panic_builtin snell_inv sd_t sd_p U minpos rj c :
+  (ConfigSites.searches_cannot_fail = false -> forall b e cs, snell_inv b e cs <> None) ->
+  (ConfigSites.cfg_checks_total_reflection = false -> ConfigSites.searches_cannot_fail = false ->
+     no_total_internal_reflection builtin_index_of snell_inv sd_t sd_p c) ->
+  (ConfigSites.searches_cannot_fail = false -> angle_costs_defined builtin_index_of snell_inv sd_t sd_p c) ->
+  (ConfigSites.searches_cannot_fail = false -> period_costs_defined builtin_index_of snell_inv sd_t sd_p c) ->
+  is_panic (try_as_spdc R_ops U (oracles_of_model builtin_index_of snell_inv sd_t sd_p) minpos rj true c) = false.
 Proof. apply no_panic_composed. Qed.
 
 Theorem idempotent_builtin snell_inv sd_t sd_p minpos s s' nf :
